@@ -197,6 +197,22 @@ class SpinGuardRaw(DribbleRaw):
         return super().readinto(b)
 
 
+def compressed_file_sources(data: bytes, tmpdir: str):
+    """[(name, factory)]: the bytes inside a gzip / bz2 / xz FILE on disk, opened with the module's open(): a seekable
+    reader whose fileno()/fstat describe the COMPRESSED file while tell()/read() work on the content."""
+    import bz2
+    import gzip
+    import lzma
+    import os
+    out = []
+    for name, mod in (("gzip", gzip), ("bz2", bz2), ("xz", lzma)):
+        path = os.path.join(tmpdir, f"probe.jelly.{name}")
+        with mod.open(path, "wb") as f:
+            f.write(data)
+        out.append((f"{name}-file-on-disk", lambda m=mod, p=path: m.open(p, "rb")))
+    return out
+
+
 def header_probe_sources(data: bytes):
     """[(name, factory)]: file objects over `data` whose FIRST look at the stream is awkward in a different way each
     (short first reads, look-ahead that shows fewer than three bytes, positions other than 0).  All are legitimate
